@@ -30,7 +30,8 @@ REACH = [("yamlpath/processor.py", "_collector_addition,_collector_subtraction,_
          ("yamlpath/processor.py", "_get_optional_nodes", "Processor._get_optional_nodes"),
          ("yamlpath/common/nodes.py", "wrap_type,build_next_node,append_list_element", "wrap_type / build_next_node / append_list_element")]
 SIZES = {"quick": dict(reads=120000, creates=15000), "thorough": dict(reads=3000000, creates=300000)}
-REQUIRED_COUNTERS = ["purity_checked", "collector_reads", "create_steps", "optional_existing_reads"]
+REQUIRED_COUNTERS = ["purity_checked", "collector_reads", "create_steps", "optional_existing_reads", "null_sibling_cases",
+                     "merge_source_creation_cases"]
 
 SEEDS = [
     ("{h: {x: 1, y: 2}, g: {x: 1}}", "(/h)-(/g/x)"), ("{h: {x: 1, y: 2}, g: {x: 1}}", "(h)-(g)"),
@@ -97,6 +98,58 @@ def shared_hash_doc(rng):
     return "{h: %s, g: %s, l: [%s, %s], s: %s}" % (h(), h(), h(), h(), rng.choice(["1", "a", "[1, 2]"]))
 
 
+def null_sibling_case(ctx, rng):
+    """An optional-match query through a wildcard / search segment, on a path that exists for one sibling while another
+    sibling is null (`worker: ~`): the null one must be left alone - only straight key/index paths create anything."""
+    sibs = rng.sample(["web", "worker", "wdb", "cache"], rng.randrange(2, 5))
+    body = ", ".join("%s: %s" % (k, rng.choice(["null", "~", "{port: 80, tls: 1}", "{port: 81}", "{port: 0}"])) for k in sibs)
+    text = "{services: {%s}, other: null}" % body
+    data = yp.load(text)
+    if not any(isinstance(v, dict) for v in data["services"].values()) or all(v is not None for v in data["services"].values()):
+        return      # (a sibling mapping without the key would be a branch whose tail is missing: creation there is by design)
+    path = rng.choice(["/services/w*/port", "services[.^w].port", "/services/*/port", "services.**.port", "services[.=~/./].port",
+                       "/services/*[port>0]/port"])
+    ctx.count("null_sibling_cases")
+    purity(ctx, text, data, path, ["optional", "required", "exists"], "plain")
+
+
+def merge_source_creation_case(ctx, rng):
+    """A path created in a mapping that others merge with `<<` exists in them too (by inheritance): an optional-match
+    query of it through an inheritor is a query of an existing path - it returns the inherited node, changes nothing."""
+    text = gd.gen_merge_doc(rng)
+    try:
+        data = yp.load(text)
+    except yp.LoadError:
+        return
+    inh = [(k, v) for k, v in data.items() if isinstance(v, dict) and getattr(v, "merge", None)]
+    if not inh:
+        return
+    k, v = rng.choice(inh)
+    src = v.merge[0][1]
+    sk = next((kk for kk, vv in data.items() if vv is src), None)
+    if sk is None or "limits" in src or "limits" in v:
+        return
+    try:
+        Processor(LOG, data).set_value("%s.limits.timeout" % sk, 30)
+    except YAMLPathException:
+        return
+    ctx.count("merge_source_creation_cases")
+    path = "%s.limits.timeout" % k
+    fp0 = yp.fingerprint(data)
+    ctx.evaluations += 1
+    ctx.counters["purity_checked"] = ctx.counters.get("purity_checked", 0) + 1
+    ctx.mark_nontrivial([text, path, "inherited-after-creation"])
+    try:
+        got = [r.node for r in Processor(LOG, data).get_nodes(path, mustexist=False, default_value=0)]
+    except Exception as e:
+        ctx.count("crash_handed_to_C15/" + type(e).__name__)
+        return
+    if yp.fingerprint(data) != fp0 or got != [30]:
+        ctx.violation("read-mutates/inherited-created-path/optional", {
+            "case": {"doc": text, "path": path, "mode": "optional", "after": "set_value('%s.limits.timeout', 30)" % sk},
+            "summary": "query gave %r ; document after the read: %r" % (got, yp.dump(data)[:250])})
+
+
 def colliding_hash_doc(rng):
     """Top-level hashes whose *names* are also the names of their members (x: {x: 1, y: 2}): subtraction drops
     operands by name and prunes pairs by value, so the bookkeeping between the two is exercised."""
@@ -119,6 +172,10 @@ def run_shard(ctx):
     want = sz["reads"] // ctx.nshards
     while ctx.counters.get("purity_checked", 0) < want:
         x = rng.random()
+        if x < 0.02:
+            null_sibling_case(ctx, rng)
+            merge_source_creation_case(ctx, rng)
+            continue
         if x < 0.08:
             text = rng.choice(gd.HOSTILE)
         elif x < 0.25:
